@@ -27,6 +27,10 @@ def run(ctx):
     rng = random.Random(ctx.seed + 10)
     n = 60 if ctx.quick else 1500
     progs = [fam2.c10_prog("p_%04d" % i, rng, ["attr", "derive"][i % 2]) for i in range(n)]
+    # every hostile field name once as the first field of a named struct / enum variant (twice in the thorough tier)
+    for rep in range(1 if ctx.quick else 4):
+        for hn in fam2.C10_HOSTILE_NAMES:
+            progs.append(fam2.c10_prog("p_%04d" % len(progs), rng, ["attr", "derive"][len(progs) % 2], first_name=hn))
     st = E.run_family(ctx, "C10", progs, None, per=80, extra_support=fam2.C10_SUPPORT)
     ex = Expander()
     nr = rejections(ctx, ex)
